@@ -5,17 +5,21 @@
 //! so queries return each row exactly once.
 
 use arrow::compute::filter_record_batch;
-use arrow_array::cast::AsArray;
+use arrow::row::{RowConverter, SortField};
 use arrow_array::BooleanArray;
-use arrow_array::{Array, RecordBatch};
+use arrow_array::RecordBatch;
 use std::collections::HashSet;
 
 use crate::Result;
 
 /// Deduplicate rows across multiple record batches.
 ///
-/// Uses (timestamp_nanos, metric_name) as the dedup key. The first occurrence
-/// of each key is kept; subsequent duplicates are filtered out.
+/// The dedup key is the whole row: every column of the result, compared in the
+/// Arrow row format, so it works for every column type (plain, view and
+/// dictionary-encoded strings, any timestamp unit). Double-written copies are
+/// identical in every column and collapse to one row; rows that merely share a
+/// timestamp and metric name but differ in a label or value are all kept. The
+/// first occurrence of each row is kept; subsequent duplicates are filtered out.
 ///
 /// This is applied at query time when any shard involved in the result set
 /// is in a dual-write split phase.
@@ -24,75 +28,33 @@ pub fn dedup_batches(batches: Vec<RecordBatch>) -> Result<Vec<RecordBatch>> {
         return Ok(batches);
     }
 
-    let mut seen: HashSet<(i64, String)> = HashSet::new();
+    let mut seen: HashSet<Vec<u8>> = HashSet::new();
     let mut result = Vec::with_capacity(batches.len());
 
     for batch in &batches {
-        let ts_col = batch.column_by_name("timestamp");
-        let metric_col = batch.column_by_name("metric_name");
-
-        // If the batch doesn't have both columns, we can't dedup — pass through
-        let (ts_col, metric_col) = match (ts_col, metric_col) {
-            (Some(t), Some(m)) => (t, m),
-            _ => {
-                result.push(batch.clone());
-                continue;
-            }
-        };
-
-        // Try to get timestamp as nanosecond or int64
-        let ts_values: Vec<Option<i64>> = if let Some(ts_arr) =
-            ts_col.as_primitive_opt::<arrow_array::types::TimestampNanosecondType>()
+        // If the batch doesn't identify its rows (no timestamp or no metric
+        // name in the projection), we can't dedup — pass through
+        if batch.column_by_name("timestamp").is_none()
+            || batch.column_by_name("metric_name").is_none()
         {
-            (0..batch.num_rows())
-                .map(|i| {
-                    if ts_arr.is_null(i) {
-                        None
-                    } else {
-                        Some(ts_arr.value(i))
-                    }
-                })
-                .collect()
-        } else if let Some(ts_arr) = ts_col.as_primitive_opt::<arrow_array::types::Int64Type>() {
-            (0..batch.num_rows())
-                .map(|i| {
-                    if ts_arr.is_null(i) {
-                        None
-                    } else {
-                        Some(ts_arr.value(i))
-                    }
-                })
-                .collect()
-        } else {
-            // Can't interpret timestamp column — pass through
             result.push(batch.clone());
             continue;
-        };
+        }
 
-        let metric_arr = match metric_col.as_string_opt::<i32>() {
-            Some(arr) => arr,
-            None => {
-                result.push(batch.clone());
-                continue;
-            }
-        };
+        let fields = batch
+            .schema()
+            .fields()
+            .iter()
+            .map(|f| SortField::new(f.data_type().clone()))
+            .collect();
+        let rows = RowConverter::new(fields)?.convert_columns(batch.columns())?;
 
         // Build keep mask
         let mut keep = vec![true; batch.num_rows()];
         let mut any_dropped = false;
 
-        for i in 0..batch.num_rows() {
-            let ts = match ts_values[i] {
-                Some(v) => v,
-                None => continue, // Keep nulls
-            };
-            let metric = if metric_arr.is_null(i) {
-                String::new()
-            } else {
-                metric_arr.value(i).to_string()
-            };
-
-            if !seen.insert((ts, metric)) {
+        for (i, row) in rows.iter().enumerate() {
+            if !seen.insert(row.as_ref().to_vec()) {
                 keep[i] = false;
                 any_dropped = true;
             }
